@@ -43,6 +43,8 @@ def check_case(run, fcp, sch, name, v, text, sig=None):
         run.violation("encode raised %s: %s" % (type(e).__name__, e), case)
         return
     run.count("encode_calls")
+    if not CC.earlier_results_intact(run, b, bytes(b), case):
+        return
     if not ref.same(v, pristine):
         run.violation("encode() modified the value it was given (the caller's object)", dict(case, value=pristine, value_after_encode=v))
         return
@@ -159,6 +161,15 @@ def conclude(run):
 
 
 def replay(run, case):
+    if "earlier_call" in case:
+        # history: the earlier encode() whose result the caller still holds
+        from fcp import serde
+
+        e = case["earlier_call"]
+        r0 = CC.parse(e["schema"])
+        if r0.is_ok():
+            raw = serde.encode(r0.unwrap(), e["struct"], e["value"])
+            CC.earlier_results_intact(run, raw, bytes(raw), e)
     res = CC.parse(case["schema"])
     if res.is_err():
         run.violation("front end rejected the schema: %r" % (res.err(),), case)
